@@ -105,6 +105,7 @@ func (s *Stepper) Dup(d *simnet.Datagram) {
 
 // StepFaulty performs one tape-chosen network action with faults enabled.
 func (s *Stepper) StepFaulty() {
+	synctest.Wait()
 	pool := s.Eligible()
 	if len(pool) == 0 {
 		s.Advance(s.Deltas[s.C.T.Choose(len(s.Deltas), "delta")])
@@ -148,6 +149,7 @@ func (s *Stepper) StepFaulty() {
 
 // StepFair delivers the oldest datagram, or advances by delta when none is in flight.
 func (s *Stepper) StepFair(delta time.Duration) {
+	synctest.Wait() // whatever the caller set in motion has been emitted before the pool is looked at
 	pool := s.Eligible()
 	if s.Latency > 0 {
 		// a loss-free network with a constant one-way latency: a datagram is delivered once it is old enough
